@@ -204,7 +204,8 @@ pub fn decodable_ext(em: &Emitted, fdts: &[FdtView], ov: &ObjView, delivered: &[
         let obj_order: Vec<usize> = delivered.iter().copied().filter(|k| em.stream[*k].toi() == ov.toi).collect();
         let in_order = obj_order.windows(2).all(|w| w[0] < w[1]);
         let b_last = b_pos.map(|p| delivered[p] == *obj_order.last().unwrap()).unwrap_or(true);
-        if !em.oti_of(i).inband_fti && in_order && b_last {
+        // (with in-band OTI the blocks are decoded on arrival and wait for the FDT; an object that is not empty)
+        if in_order && b_last && (!em.oti_of(i).inband_fti || em.transfer_len[i].unwrap_or(0) > 0) {
             delivered.len()
         } else {
             b_pos.unwrap_or(delivered.len())
